@@ -6,6 +6,7 @@ import (
 	"go/constant"
 	"go/token"
 	"go/types"
+	"golang.org/x/tools/go/ssa"
 	"math"
 	"math/big"
 	"sort"
@@ -17,10 +18,11 @@ import (
 func init() { register("C18", c18) }
 
 func c18(r *core.Report) {
-	r.Assumption("claim: the table of the generator's kind switch is sound against what encoding/json emits (JSON type per Go kind, numeric bounds that contain the kind's range, formats that fit it, byte slices recognised by element kind), nullability from stripped pointers is never cleared afterwards, and the recursion over Go types is cut by the parent chain with every cycle turned into a component reference that is registered; field discovery equivalence with encoding/json (tags, embedding, omitempty), the '...Ref' heuristic, customiser effects and the schemas of nested values are not decided")
+	r.Assumption("claim: the table of the generator's kind switch is sound against what encoding/json emits (JSON type per Go kind, numeric bounds that contain the kind's range, formats that fit it, byte slices recognised by element kind), nullability from stripped pointers is never cleared afterwards, and the recursion over Go types is cut by the parent chain with every cycle turned into a component reference that is registered; that a JSON name shared by several fields is resolved by comparing names and nesting depths (the rest of field discovery equivalence with encoding/json: tag parsing, omitempty, the tie rules), the '...Ref' heuristic, customiser effects and the schemas of nested values are not decided")
 	c18Kinds(r)
 	c18Nullable(r)
 	c18Rec(r)
+	c18Dominance(r)
 }
 
 // kind ranges: what encoding/json can emit for a value of the kind (as numbers).
@@ -437,4 +439,196 @@ func isParamOf(d *ast.FuncDecl, info *types.Info, o types.Object) bool {
 		}
 	}
 	return false
+}
+
+// ---------------------------------------------------------------- dominance
+
+// c18Dominance: a JSON name shared by several (embedded) fields is resolved the way encoding/json
+// resolves it. Structural necessary conditions, decided on code reachable from the package's
+// exported API: (names) somewhere two collected fields' JSON names are compared, or a collected
+// field's JSON name is looked up in a map, -- without it the last field written under a name wins,
+// whatever its nesting; (depth) somewhere the nesting depths (lengths of the index paths) of two
+// collected fields are compared -- without it the resolution cannot prefer the least nested field.
+func c18Dominance(r *core.Report) {
+	p := r.Prog
+	pkg := p.Pkg("openapi3gen")
+	info := pkg.TypesInfo
+	r.RunRule("C18.dominance", "fields collected for a struct that share a JSON name are resolved by nesting depth, as encoding/json does (an outer field shadows a promoted one): reachable from the exported API there is an equality test of the JSON names of two collected fields in a function that returns the list (or a map membership test by JSON name), and an ordering comparison (<, >) of the lengths of two collected fields' index paths", 2, func() {
+		// the field-info type: element type of the slice returned by the function that reads the "json" struct tag
+		var fieldInfo *types.Named
+		for _, d := range p.AllDecls("openapi3gen") {
+			readsTag := false
+			ast.Inspect(d.Body, func(n ast.Node) bool {
+				if c, ok := n.(*ast.CallExpr); ok && len(c.Args) == 1 {
+					if f := core.CalleeOf(info, c); f != nil && f.FullName() == "(reflect.StructTag).Get" {
+						if s, ok := strConst(info, c.Args[0]); ok && s == "json" {
+							readsTag = true
+						}
+					}
+				}
+				return true
+			})
+			if !readsTag || d.Type.Results == nil {
+				continue
+			}
+			for _, res := range d.Type.Results.List {
+				if sl, ok := info.TypeOf(res.Type).Underlying().(*types.Slice); ok {
+					if n := core.NamedOf(sl.Elem()); n != nil && core.InRepo(n.Obj().Pkg()) {
+						fieldInfo = n
+					}
+				}
+			}
+		}
+		if fieldInfo == nil {
+			core.Fail("the function that reads the json struct tag and returns the list of collected fields was not found in openapi3gen")
+		}
+		st := core.StructOf(fieldInfo)
+		var nameF, indexF *types.Var
+		for i := 0; i < st.NumFields(); i++ {
+			f := st.Field(i)
+			if b, ok := f.Type().Underlying().(*types.Basic); ok && b.Kind() == types.String {
+				if nameF != nil {
+					core.Fail("%s has several string fields: cannot tell which holds the JSON name", fieldInfo.Obj().Name())
+				}
+				nameF = f
+			}
+			if sl, ok := f.Type().Underlying().(*types.Slice); ok {
+				if b, ok := sl.Elem().Underlying().(*types.Basic); ok && b.Kind() == types.Int {
+					if indexF != nil {
+						core.Fail("%s has several []int fields: cannot tell which holds the index path", fieldInfo.Obj().Name())
+					}
+					indexF = f
+				}
+			}
+		}
+		if nameF == nil || indexF == nil {
+			core.Fail("%s lacks a JSON-name string field or an index-path []int field", fieldInfo.Obj().Name())
+		}
+		// reachability from the exported API
+		p.BuildSSA()
+		var entries []*ssa.Function
+		for _, fn := range allFuncsOf(p.SSAPkg("openapi3gen")) {
+			if fn.Object() != nil && fn.Object().Exported() {
+				entries = append(entries, fn)
+			}
+		}
+		reach := p.Reachable(entries)
+		reachDecl := func(d *ast.FuncDecl) bool {
+			o, _ := info.Defs[d.Name].(*types.Func)
+			if o == nil {
+				return false
+			}
+			fn := p.SSAFunc(o)
+			return fn != nil && reach[fn]
+		}
+		// selOf: e is <T value>.<field>; returns the base expression text
+		selOf := func(e ast.Expr, fld *types.Var) (string, bool) {
+			sel, ok := ast.Unparen(e).(*ast.SelectorExpr)
+			if !ok || info.ObjectOf(sel.Sel) != types.Object(fld) {
+				return "", false
+			}
+			return core.ExprStr(sel.X), true
+		}
+		lenOfIndex := func(e ast.Expr) (string, bool) {
+			c, ok := ast.Unparen(e).(*ast.CallExpr)
+			if !ok || len(c.Args) != 1 {
+				return "", false
+			}
+			if id, ok := c.Fun.(*ast.Ident); !ok || id.Name != "len" {
+				return "", false
+			}
+			return selOf(c.Args[0], indexF)
+		}
+		// a name comparison resolves shared names only where fields can be dropped: in a function that
+		// hands a list of collected fields back (a sort's Less compares names too, but only orders)
+		returnsList := func(d *ast.FuncDecl) bool {
+			if d.Type.Results == nil {
+				return false
+			}
+			for _, res := range d.Type.Results.List {
+				if sl, ok := info.TypeOf(res.Type).Underlying().(*types.Slice); ok && types.Identical(sl.Elem(), fieldInfo) {
+					return true
+				}
+			}
+			return false
+		}
+		// local variables that hold a collected field's name / depth (one assignment step)
+		var nameSite, depthSite, nameUnreach, depthUnreach string
+		for _, d := range p.AllDecls("openapi3gen") {
+			ff := core.NewFuncFacts(p, info, d)
+			resolve := func(e ast.Expr, f func(ast.Expr) (string, bool)) (string, bool) {
+				if b, ok := f(e); ok {
+					return b, true
+				}
+				if id, ok := ast.Unparen(e).(*ast.Ident); ok {
+					if as := ff.Assigns(info.ObjectOf(id)); len(as) == 1 && as[0].Rhs != nil {
+						return f(as[0].Rhs)
+					}
+				}
+				return "", false
+			}
+			isName := func(e ast.Expr) (string, bool) { return selOf(e, nameF) }
+			ast.Inspect(d.Body, func(n ast.Node) bool {
+				switch x := n.(type) {
+				case *ast.BinaryExpr:
+					switch x.Op {
+					case token.EQL, token.NEQ, token.LSS, token.GTR, token.LEQ, token.GEQ:
+					default:
+						return true
+					}
+					if a, ok := resolve(x.X, isName); ok && (x.Op == token.EQL || x.Op == token.NEQ) && returnsList(d) {
+						if b, ok := resolve(x.Y, isName); ok && a != b {
+							if reachDecl(d) {
+								nameSite = p.Pos(x.Pos()) + " (" + core.ExprStr(x) + ")"
+							} else {
+								nameUnreach = p.Pos(x.Pos())
+							}
+						}
+					}
+					if a, ok := resolve(x.X, lenOfIndex); ok && x.Op != token.EQL && x.Op != token.NEQ {
+						if b, ok := resolve(x.Y, lenOfIndex); ok && a != b {
+							if reachDecl(d) {
+								depthSite = p.Pos(x.Pos()) + " (" + core.ExprStr(x) + ")"
+							} else {
+								depthUnreach = p.Pos(x.Pos())
+							}
+						}
+					}
+				case *ast.IndexExpr:
+					// m[f.JSONName] as a membership test (comma-ok assignment or if-init)
+					if _, ok := info.TypeOf(x.X).Underlying().(*types.Map); !ok {
+						return true
+					}
+					if _, ok := resolve(x.Index, isName); !ok {
+						return true
+					}
+					if tv, ok := info.Types[x]; ok {
+						if _, isTuple := tv.Type.(*types.Tuple); isTuple && reachDecl(d) {
+							nameSite = p.Pos(x.Pos()) + " (lookup " + core.ExprStr(x) + ")"
+						}
+					}
+				}
+				return true
+			})
+		}
+		at := p.Pos(fieldInfo.Obj().Pos())
+		if nameSite != "" {
+			r.OK("dominance:names", at, "JSON names of collected fields are compared at "+nameSite)
+		} else {
+			why := "no reachable code compares the JSON names of two collected fields (or looks one up in a map): when an outer field and a promoted field of an embedded struct share a JSON name, both are written as properties and the last one wins, whatever encoding/json emits"
+			if nameUnreach != "" {
+				why += "; the comparison at " + nameUnreach + " is not reachable from the exported API"
+			}
+			r.Bad("dominance:names", at, why)
+		}
+		if depthSite != "" {
+			r.OK("dominance:depth", at, "nesting depths of collected fields are compared at "+depthSite)
+		} else {
+			why := "no reachable code orders two collected fields by the lengths of their index paths: a shared JSON name cannot be resolved in favour of the least nested field, which is the one encoding/json encodes"
+			if depthUnreach != "" {
+				why += "; the comparison at " + depthUnreach + " is not reachable from the exported API"
+			}
+			r.Bad("dominance:depth", at, why)
+		}
+	})
 }
